@@ -9,14 +9,20 @@ import (
 	stdrsa "crypto/rsa"
 	"crypto/sha1"
 	"crypto/sha256"
+	"encoding/json"
 	"encoding/pem"
 	"fmt"
+	"math/big"
 	"os"
 	"path/filepath"
 	"sort"
+	"sync"
 	"testing"
+	"time"
 
+	"github.com/zmap/zcrypto/encoding/asn1"
 	"github.com/zmap/zcrypto/x509"
+	"github.com/zmap/zcrypto/x509/pkix"
 	"pgregory.net/rapid"
 	"verifharness/certgen"
 	"verifharness/der"
@@ -230,7 +236,7 @@ func nearVariantIssuer(p *certgen.Parts, variant int) (tbs []byte, ok bool) {
 	return nil, false
 }
 
-const rule = "certificates created by CreateCertificate from the C04 template generator (pool keys RSA/ECDSA/Ed25519, requested algorithms incl. MD5/SHA1/PSS) in four modes (self-signed, self-issued but signed by another key, issued by a parent, signed by its own key with an issuer that is a near-variant of the subject: other string type or one letter's case), optionally re-assembled with another version field (absent, 0..3, 100) and re-signed with the standard library, optionally (1 in 4) given each AlgorithmIdentifier of the oracle's own OID table that fits the signer's key (MD5/SHA-1/SHA-2 with RSA incl. the ISO alias 1.3.14.3.2.29, ECDSA with SHA-1/SHA-2, Ed25519) and re-signed under it, optionally with one byte flipped (in the signature, in the subject, anywhere); every variant ParseCertificate accepts is compared with an independent TLV walk + std hashes + std signature verification. Non-trivial: self-issued-but-not-self-signed, a transformed variant, or a non-RSA-2048 key; distinct by case hash"
+const rule = "certificates created by CreateCertificate from the C04 template generator (pool keys RSA/ECDSA/Ed25519, requested algorithms incl. MD5/SHA1/PSS) in four modes (self-signed, self-issued but signed by another key, issued by a parent, signed by its own key with an issuer that is a near-variant of the subject: other string type or one letter's case), optionally re-assembled with another version field (absent, 0..3, 100) and re-signed with the standard library, optionally (1 in 4) given each AlgorithmIdentifier of the oracle's own OID table that fits the signer's key (MD5/SHA-1/SHA-2 with RSA incl. the ISO alias 1.3.14.3.2.29, ECDSA with SHA-1/SHA-2, Ed25519) and re-signed under it, optionally with one byte flipped (in the signature, in the subject, anywhere); every variant ParseCertificate accepts is compared with an independent TLV walk + std hashes + std signature verification, and is parsed once more through ParseCertificates in front of and behind a companion certificate (rich in extensions / extension-free / precertificate), where it must come out with the same metadata (oracle again, JSON forms equal). Non-trivial: self-issued-but-not-self-signed, a transformed variant, or a non-RSA-2048 key; distinct by case hash"
 
 func build(c Case, r *kit.R) []byte {
 	subj := keys.Get(c.SubjectKey)
@@ -322,6 +328,55 @@ func build(c Case, r *kit.R) []byte {
 	return b
 }
 
+// companions are certificates placed in front of the certificate under test when it is parsed
+// through ParseCertificates: one with many extensions, one with none, one precertificate.
+var companions = sync.OnceValue(func() [][]byte {
+	k := keys.ByName("ecP-256-0")
+	mk := func(t *x509.Certificate) []byte {
+		b, err := x509.CreateCertificate(rand.Reader, t, t, k.ZPub, k.ZPriv)
+		if err != nil {
+			panic(err)
+		}
+		return b
+	}
+	rich := &x509.Certificate{SerialNumber: big.NewInt(77), Subject: pkix.Name{CommonName: "companion.example.test", Organization: []string{"Companion"}},
+		NotBefore: pki.Epoch, NotAfter: pki.Epoch.Add(240 * time.Hour), KeyUsage: x509.KeyUsageCertSign | x509.KeyUsageDigitalSignature,
+		ExtKeyUsage: []x509.ExtKeyUsage{x509.ExtKeyUsageServerAuth}, BasicConstraintsValid: true, IsCA: true, MaxPathLen: 3,
+		SubjectKeyId: []byte{1, 2, 3, 4}, AuthorityKeyId: []byte{5, 6, 7, 8}, DNSNames: []string{"companion.example.test", "*.companion.example.test"},
+		EmailAddresses: []string{"c@example.test"}, PolicyIdentifiers: []asn1.ObjectIdentifier{{2, 23, 140, 1, 2, 1}},
+		CRLDistributionPoints: []string{"http://crl.example.test/c.crl"}, OCSPServer: []string{"http://ocsp.example.test/"},
+		PermittedDNSNames: []x509.GeneralSubtreeString{{Data: "example.test"}}}
+	bare := &x509.Certificate{SerialNumber: big.NewInt(78), Subject: pkix.Name{CommonName: "bare"}, NotBefore: pki.Epoch, NotAfter: pki.Epoch.Add(240 * time.Hour)}
+	pre := &x509.Certificate{SerialNumber: big.NewInt(79), Subject: pkix.Name{CommonName: "pre.example.test"}, NotBefore: pki.Epoch, NotAfter: pki.Epoch.Add(240 * time.Hour),
+		DNSNames: []string{"pre.example.test"}, ExtraExtensions: []pkix.Extension{{Id: asn1.ObjectIdentifier{1, 3, 6, 1, 4, 1, 11129, 2, 4, 3}, Critical: true, Value: []byte{5, 0}}}}
+	return [][]byte{mk(rich), mk(bare), mk(pre)}
+})
+
+// bundleCheck parses companion || b with ParseCertificates: the certificate under test must come
+// out with the metadata ParseCertificate gave it (the metadata is a function of its DER bytes).
+func bundleCheck(r *kit.R, b []byte, single *x509.Certificate, which int) {
+	comp := companions()[((which%3)+3)%3]
+	for _, order := range []int{0, 1} {
+		in, at := append(append([]byte{}, comp...), b...), 1
+		if order == 1 {
+			in, at = append(append([]byte{}, b...), comp...), 0
+		}
+		certs, err := x509.ParseCertificates(in)
+		if err != nil || len(certs) != 2 {
+			r.Failf("C06:bundle:rejected", "ParseCertificate accepts the certificate and the companion, ParseCertificates of the two concatenated (position %d) returns %d certificates, %v\nder=%x", at, len(certs), err, b)
+		}
+		got := certs[at]
+		oracle(r, b, got)
+		j1, e1 := json.Marshal(single)
+		j2, e2 := json.Marshal(got)
+		if (e1 == nil) != (e2 == nil) || !bytes.Equal(j1, j2) {
+			r.Failf("C06:bundle:metadata-differs", "the certificate parsed as element %d of a two-certificate bundle (companion %d) differs from the same bytes parsed alone (FingerprintNoCT %x vs %x, %d vs %d extensions)\njson alone:  %s\njson bundle: %s\nder=%x",
+				at, which%3, got.FingerprintNoCT, single.FingerprintNoCT, len(got.Extensions), len(single.Extensions), j1, j2, b)
+		}
+	}
+	r.Class("parsed-in-a-bundle-too")
+}
+
 func check(c Case, r *kit.R) {
 	b := build(c, r)
 	cert, err := x509.ParseCertificate(b)
@@ -330,6 +385,7 @@ func check(c Case, r *kit.R) {
 		return
 	}
 	_, selfIssued, selfSigned, decided := oracle(r, b, cert)
+	bundleCheck(r, b, cert, c.FlipOff+c.SubjectKey+c.Mode)
 	transformed := c.Version != -2 || (c.FlipRegion != 0 && c.FlipXor != 0) || c.Mode == 3
 	switch {
 	case !decided:
@@ -535,7 +591,7 @@ type CTCase struct {
 	PoisonNonCritical bool `json:"poison_non_critical,omitempty"`
 }
 
-const ruleCT = "a canonical certificate (created by CreateCertificate with the key's default algorithm from the C04 template generator, 0..n extensions) and, for EVERY position 0..n of its extension list, three twins re-assembled with the der package and re-signed with the standard library: CT poison (critical, or in 35% of cases non-critical) inserted there, an SCT-list extension (1-3 generated SCTs) inserted there, and both (poison at i, SCT list before/after it and at both ends); all must parse, have the same FingerprintNoCT as the CT-free certificate, and that value must be SHA-256 of the CT-free TBS bytes. Non-trivial: >= 1 other extension; distinct by case hash"
+const ruleCT = "a canonical certificate (created by CreateCertificate with the key's default algorithm from the C04 template generator, 0..n extensions) and, for EVERY position 0..n of its extension list, three twins re-assembled with the der package and re-signed with the standard library: CT poison (critical, or in 35% of cases non-critical) inserted there, an SCT-list extension (1-3 generated SCTs) inserted there, and both (poison at i, SCT list before/after it and at both ends); all must parse, have the same FingerprintNoCT as the CT-free certificate, and that value must be SHA-256 of the CT-free TBS bytes; plus the family in which the CT extensions are the only extensions (poison, SCT list, both in either order) against the same certificate without an extensions field: equal no-CT fingerprints. Non-trivial: >= 1 other extension; distinct by case hash"
 
 func checkCT(c CTCase, r *kit.R) {
 	subj, signer := keys.Get(c.SubjectKey), keys.Get(c.SignerKey)
@@ -605,6 +661,38 @@ func checkCT(c CTCase, r *kit.R) {
 			seen[j] = true
 			try(fmt.Sprintf("poison at %d, SCT list at %d of %d", i, j, n+1), ins(withP, j, sct), true, len(c.SCTs))
 		}
+	}
+	// the same certificate with an extension list that holds nothing but CT extensions, against
+	// its counterpart without an extensions field (only the clause of the statement is asserted:
+	// the no-CT fingerprints of the family agree)
+	{
+		bare := pki.ResignTBS(p.TBSWith(ver, nil), signer)
+		bc, err := x509.ParseCertificate(bare)
+		if err != nil {
+			r.Failf("C06:ct-twin-rejected", "extension-free twin: ParseCertificate rejects it: %v\nder=%x", err, bare)
+		}
+		oracle(r, bare, bc)
+		for _, f := range []struct {
+			what    string
+			l       [][]byte
+			wantPre bool
+			wantSCT int
+		}{{"poison only", [][]byte{poison}, true, 0}, {"SCT list only", [][]byte{sct}, false, len(c.SCTs)},
+			{"poison, SCT list only", [][]byte{poison, sct}, true, len(c.SCTs)}, {"SCT list, poison only", [][]byte{sct, poison}, true, len(c.SCTs)}} {
+			d := pki.ResignTBS(p.TBSWith(ver, f.l), signer)
+			cert, err := x509.ParseCertificate(d)
+			if err != nil {
+				r.Failf("C06:ct-twin-rejected", "%s: ParseCertificate rejects the twin: %v\nder=%x", f.what, err, d)
+			}
+			oracle(r, d, cert)
+			if !bytes.Equal(cert.FingerprintNoCT, bc.FingerprintNoCT) {
+				r.Failf("C06:noct-differs", "%s: FingerprintNoCT %x differs from %x of the same certificate without an extensions field\ntwin=%x\nbare=%x", f.what, cert.FingerprintNoCT, bc.FingerprintNoCT, d, bare)
+			}
+			if cert.IsPrecert != f.wantPre || len(cert.SignedCertificateTimestampList) != f.wantSCT {
+				r.Failf("C06:ct-flags", "%s: IsPrecert=%v (want %v), %d SCTs (want %d)", f.what, cert.IsPrecert, f.wantPre, len(cert.SignedCertificateTimestampList), f.wantSCT)
+			}
+		}
+		r.Class("ct-extensions-as-the-only-extensions")
 	}
 	r.Class(fmt.Sprintf("extensions=%d", min(n, 8)))
 	r.Class(fmt.Sprintf("scts=%d", len(c.SCTs)))
